@@ -98,3 +98,37 @@ Proof.
   specialize (A n (in_range_1_4096 n H)). unfold both_ok in A.
   now apply andb_true_iff in A.
 Qed.
+
+(* ------------------------------------------------------------------ int(N * landmark_ratio)
+   static_cast<IndexType>(n_vectors * static_cast<ScalarType>(parameters[landmark_ratio])): the product
+   is rounded to binary64 before it is truncated.  For the ratios the harness generates (multiples of
+   1/64, N <= 64) the product is exact, so the binary64 count equals the exact count of the model. *)
+Definition landmarks_expr : bexpr := BTrunc (BMul BN (BParam 12%nat TScalar)).
+
+Definition env_ratio (n : Z) (q : Q) : env :=
+  {| e_n := n; e_dim := 0; e_get := fun k => if Nat.eqb k 12 then Some (VScalar q) else None |}.
+
+Definition landmarks_ok (n k : Z) : bool :=
+  let E := env_ratio n (k # 64) in
+  match feval E landmarks_expr, eval_bexpr E landmarks_expr with
+  | FI a, NI b => a =? b
+  | _, _ => false
+  end.
+
+Definition range_0_64 : list Z := map Z.of_nat (seq 0 65).
+
+Lemma in_range_0_64 : forall n, 0 <= n <= 64 -> In n range_0_64.
+Proof.
+  intros n H. unfold range_0_64. replace n with (Z.of_nat (Z.to_nat n)) by lia.
+  apply in_map. apply in_seq. lia.
+Qed.
+
+Lemma all_landmarks_ok : forallb (fun n => forallb (landmarks_ok n) range_0_64) range_0_64 = true.
+Proof. vm_compute. reflexivity. Qed.
+
+Lemma landmarks_ok_64 : forall n k, 0 <= n <= 64 -> 0 <= k <= 64 -> landmarks_ok n k = true.
+Proof.
+  intros n k Hn Hk. pose proof all_landmarks_ok as A. rewrite forallb_forall in A.
+  specialize (A n (in_range_0_64 n Hn)). rewrite forallb_forall in A.
+  exact (A k (in_range_0_64 k Hk)).
+Qed.
